@@ -17,6 +17,7 @@ import json
 
 from harness import c03_gen as G
 from harness import c03_exec as E
+from harness import c03_similar as S
 
 PROPERTY = "C03"
 HEADER = ("From Coq Require Import List NArith ZArith Bool.\nImport ListNotations.\n"
@@ -218,6 +219,14 @@ def replay_obj(rec):
     return o
 
 
+def h_block_is_loop_else(h, path):
+    body = h.host["body"]
+    for (k, br) in path[:-1]:
+        s = body[k]
+        body = s[2 + br] if s[0] in ("if", "while") else s[3 + br]
+    return body[path[-1][0]][0] in ("while", "for")
+
+
 def survey(records):
     """Development aid (VERIF_C03_SURVEY=1): histogram of oracle failures by model class and of mismatches."""
     import collections
@@ -258,6 +267,8 @@ def report(ctx, records):
         ctx.case((h.src, rec["first"], rec["last"]), nontrivial=nontrivial)
         ctx.traces += 1
         ctx.count("position:" + pos)
+        if rec["path"] and rec["path"][-1][1] == 1 and h_block_is_loop_else(h, rec["path"]):
+            ctx.count("region_in_loop_else_clause")
         ctx.count("stream:" + h.stream)
         ctx.count("refused" if r["refused"] else "extracted")
         if not r["refused"]:
@@ -427,6 +438,22 @@ KNOWN_VARIABLE = {
 }
 
 SOUND_HOSTS = [
+    # an inner loop whose else-clause continues the OUTER loop: every region that contains the else-clause but not
+    # the outer loop must be refused (coq/C03/Witnesses.v ex_refused_else); with a harmless else-clause it is
+    # accepted (ex_accepted_else)
+    {"pos": "function", "params": ["a"], "body": [
+        ["for", "i", V("a"),
+         [["for", "x", V("i"), [["if", V("x"), [["break"]], []]], [["continue"]]], ["print", V("i")]], []]]},
+    {"pos": "function", "params": ["a"], "body": [
+        ["for", "i", V("a"),
+         [["for", "x", V("i"), [["if", V("x"), [["break"]], []]], [["print", V("i")]]], ["print", V("i")]], []]]},
+    {"pos": "method", "params": ["a"], "body": [
+        ["assign", "x", K(0)],
+        ["while", ["b", "<", V("x"), V("a")],
+         [["aug", "x", "+", K(1)],
+          ["while", ["b", "<", V("x"), K(2)], [["aug", "x", "+", K(1)]], [["print", V("x")], ["break"]]],
+          ["print", V("a")]], [["print", K(5)]]],
+        ["return", V("x")]]},
     # loop carried values, extracted correctly (coq/C03/Witnesses.v ex_loop)
     {"pos": "method", "params": ["a"], "body": [
         ["assign", "x", K(0)], ["assign", "y", K(0)],
@@ -438,6 +465,27 @@ SOUND_HOSTS = [
         ["if", ["b", "<", V("b"), K(2)], [["assign", "x", ["b", "*", V("x"), K(2)]]], []],
         ["return", ["b", "+", V("x"), V("b")]]]},
 ]
+
+
+def _with_else(ss):
+    """KNOWN / SOUND hosts are written without else-clauses: add the empty ones."""
+    out = []
+    for s in ss:
+        if s[0] == "if":
+            out.append(["if", s[1], _with_else(s[2]), _with_else(s[3])])
+        elif s[0] == "while":
+            out.append(["while", s[1], _with_else(s[2]), _with_else(s[3]) if len(s) > 3 else []])
+        elif s[0] == "for":
+            out.append(["for", s[1], s[2], _with_else(s[3]), _with_else(s[4]) if len(s) > 4 else []])
+        else:
+            out.append(s)
+    return out
+
+
+for _k in KNOWN:
+    _k["host"]["body"] = _with_else(_k["host"]["body"])
+for _h in SOUND_HOSTS:
+    _h["body"] = _with_else(_h["body"])
 
 
 def known_replay(k):
@@ -480,6 +528,12 @@ def write_findings():
         json.dump(KNOWN_VARIABLE["replay"], f, indent=1)
     entries.append({"property": PROPERTY, "id": KNOWN_VARIABLE["id"], "title": KNOWN_VARIABLE["title"],
                     "signature": "variable:while-condition", "replay": fn})
+    for k in S.KNOWN_SIMILAR:
+        obj = S.known_obj(k)
+        fn = "findings/%s.json" % k["id"]
+        with open(os.path.join(common.VERIF, fn), "w") as f:
+            json.dump(obj, f, indent=1)
+        entries.append({"property": PROPERTY, "id": k["id"], "title": k["title"], "signature": obj["class"], "replay": fn})
     with open(os.path.join(common.VERIF, "findings.d", "C03.json"), "w") as f:
         json.dump({"open": entries, "fixed": fixed}, f, indent=1)
 
@@ -516,7 +570,8 @@ def run(ctx):
         "a behaviour change that the model predicts exactly (same sets, args, returns, resulting program, same "
         "outputs as CPython before and after) and attributes to a recorded defect class is a known finding; "
         "anything else is a violation",
-        "similar=True, global_=True and the staticmethod/classmethod kinds are not exercised",
+        "similar=True, global_=True, kind=classmethod/staticmethod, try/except and class/nested scopes are exercised "
+        "by an execution-oracle-only stream (harness/c03_similar.py); they are not modelled in Coq",
     ]
     nhosts = ctx.scale(140, 1000)
     hosts = []
@@ -537,6 +592,7 @@ def run(ctx):
     try:
         evaluate(ctx, drv, hosts, records)
         expression_stream(ctx, drv, hosts, ctx.scale(6, 8))
+        similar_stream(ctx, drv, ctx.scale(40, 300))
     finally:
         drv.close()
     coq_eval(ctx, records)
@@ -613,9 +669,43 @@ def expression_stream(ctx, drv, hosts, per_host):
                 return
 
 
+# ----------------------------------------------------------------------------- similar / global_ / kinds
+def similar_stream(ctx, drv, nspecs):
+    """Not modelled in Coq: similar=True, global_=True, kind=classmethod/staticmethod, try/except/else/finally,
+    instance/class/static methods, nested functions, module level. Execution oracle only (c03_similar.py)."""
+    fixed = [k["spec"] for k in S.KNOWN_SIMILAR] + [
+        {"stmt": False, "piece": "(p + 1) * q", "sites": ["except1", "except2"], "variant": 1},
+        {"stmt": False, "piece": "p * 2 + q", "sites": ["method1", "classmethod", "staticmethod"], "variant": 0},
+        {"stmt": True, "piece": list(S.STMTS[0]), "sites": ["try", "method1", "method2"], "variant": 0},
+    ]
+    specs = fixed + [S.gen_spec(ctx.rng) for _ in range(nspecs)]
+    for spec in specs:
+        source, occ = S.build(spec)
+        base = S.run_module(source)
+        assert base[1] == ["ok"], (base[1], source)
+        for si, o in enumerate(occ):
+            for kind, opts in S.variants(o[0], spec["stmt"]):
+                if kind == "variable" and opts.get("global_") and o[0] != "module" and ctx.rng.random() < 0.8:
+                    continue          # always-failing recorded defect: a sample is enough
+                obj, r, fail = S.run_case(drv, spec, si, kind, opts)
+                obj["class"] = S.structural_signature(obj)
+                flags = "+".join(sorted(k if v is True else "%s=%s" % (k, v) for k, v in opts.items()))
+                ctx.case(("similar", source, si, kind, flags), nontrivial=not r["refused"])
+                ctx.count("similar:%s:%s:from=%s:%s" % (kind, flags, S.site_class(o[0]),
+                                                        "refused" if r["refused"] else ("fails" if fail else "ok")))
+                if fail:
+                    obj["observed"] = fail
+                    ctx.violation(obj, "C03: extract %s %s of the piece at site %s (sites %s) changes behaviour: %r\n%s" % (
+                        kind, flags, o[0], ",".join(spec["sites"]), fail, source))
+                if ctx.too_many(8):
+                    return
+
+
 # ----------------------------------------------------------------------------- replay / signature
 def replay(ctx, obj):
     """True = the property fails on the recorded input (behaviour differs, result does not parse, or crash)."""
+    if obj.get("kind") == "similar":
+        return S.replay(obj)
     drv = E.Driver()
     try:
         if obj.get("kind") == "expression":
@@ -640,6 +730,8 @@ def replay(ctx, obj):
 
 
 def signature(obj):
+    if obj.get("kind") == "similar":
+        return S.structural_signature(obj)
     if obj.get("kind") == "expression":
         # structural: extract variable of (part of) the condition of a while loop
         if obj.get("extract") == "variable" and in_while_test(obj["source"], obj["line"], *obj["cols"]):
